@@ -68,6 +68,7 @@ type Path struct {
 	mapOrder   bool
 	harness    string
 	symRand    bool
+	cs         *cryptoState
 	randState  uint64
 	params     map[string]int
 
